@@ -84,6 +84,26 @@ def build_impl():
         return True, ''
 
 
+PLAIN = False
+
+
+def build_plain():
+    """fallback when the hooks-on build fails (a change of /repo that the in-process harness no longer compiles against): the
+    plain binary, guard off, for the black-box scenarios — the search for a concrete failing input goes on without the harness"""
+    global ZINOMA, PLAIN
+    with Lock('cargo'):
+        t0 = time.time()
+        tdir = TARGET + '_plain'
+        rc, out, err = sh(['cargo', 'build', '--offline'], cwd=REPO, timeout=1800,
+                          env={'CARGO_TARGET_DIR': tdir, 'CARGO_NET_OFFLINE': 'true', 'RUSTFLAGS': ''})
+        log('[build_plain] rc=%d %.1fs' % (rc, time.time() - t0))
+        if rc != 0:
+            return False
+        ZINOMA = os.path.join(tdir, 'debug', 'zinoma')
+        PLAIN = True
+        return True
+
+
 def coq_sources():
     out = []
     for d in ('Model', 'Proofs', 'Properties'):
@@ -248,6 +268,8 @@ def run_impl(mode, casefile, env=None, timeout=900):
     e = {'ZINOMA_VERIF': mode, 'ZINOMA_VERIF_CASES': casefile, 'RUST_BACKTRACE': '0'}
     if env:
         e.update(env)
+    if PLAIN:
+        return 1, [], 'the in-process harness is not available (hooks-on build failed): plain binary only'
     # The harness process may leave children behind (a service the real code failed to stop): they would keep a pipe open
     # for ever, so the output goes to files, the process runs in its own session and whatever is left of that session when it
     # has exited is counted (LEFTOVER[casefile]) and killed.
